@@ -1,6 +1,92 @@
 import WhVerif.Util.Proto
+import WhVerif.Model.C08
+import WhVerif.Spec.C08
 namespace WhVerif.Driver.C08
-open Lean WhVerif.Proto
-/-- ops of property C08 are named `c08.<name>`; return `none` for ops that are not ours -/
-def handle (_op : String) (_j : Json) : Option Json := none
+open Lean WhVerif.Proto WhVerif.C08
+
+/-! ops of property C08 (`c08.<name>`).  Floats travel as their IEEE-754 bit patterns (JSON naturals) so that
+nothing is lost in printing/parsing; the phred table is the code's (`0.9999` for 0, `10^(-q/10)` else). -/
+
+instance : NatCast Float := ⟨Nat.toFloat⟩
+
+def fbits (x : Float) : Json := ofNat x.toBits.toNat
+def ofBits? (j : Json) : Option Float := (asNat? j).map (fun n => Float.ofBits n.toUInt64)
+def floatList? (j : Json) : Option (List Float) := do (← asArr? j).mapM ofBits?
+
+def phred (q : Nat) : Float := if q = 0 then 0.9999 else Float.pow 10.0 (-(q.toFloat) / 10.0)
+def recombProb (q : Nat) : Float := Float.pow 10.0 (-(q.toFloat) / 10.0)
+
+def parseRead (j : Json) : Option Read := do
+  let ind ← getNat? j "ind"
+  let es ← (← getList? j "entries").mapM natList?
+  let es ← es.mapM (fun e => match e with | [c, a, q] => some (c, a, q) | _ => none)
+  some { ind := ind, entries := es }
+
+def parseInst (j : Json) : Option Inst := do
+  let nCols ← getNat? j "n_cols"
+  let nInd ← getNat? j "n_ind"
+  let tr ← (← getList? j "triples").mapM natList?
+  let tr ← tr.mapM (fun e => match e with | [f, m, c] => some (f, m, c) | _ => none)
+  let reads ← (← getList? j "reads").mapM parseRead
+  some { nCols := nCols, nInd := nInd, triples := tr, reads := reads }
+
+def parseParams (j : Json) : Option (Params Float) := do
+  let recomb ← getNatList? j "recomb"
+  let pri ← (← getList? j "priors").mapM (fun ind => do (← asArr? ind).mapM floatList?)
+  let priA : Array (Array (Array Float)) := (pri.map (fun ind => (ind.map List.toArray).toArray)).toArray
+  let recA := (recomb.map recombProb).toArray
+  let emA : Array Float := Array.ofFn (n := 256) (fun q => phred q.val)
+  some { em := fun q => if q < 256 then emA.getD q 0 else phred q
+         rho := fun c => recA.getD c 1
+         prior := fun i c g => ((priA.getD i #[]).getD c #[]).getD g 0 }
+
+def parseScal (j : Json) : Option (Scal Float) :=
+  match getObj? j "scal" with
+  | none => some Scal.one
+  | some s => do
+    let fw ← (← getObj? s "fw") |> floatList?
+    let bw ← (← getObj? s "bw") |> floatList?
+    let bw2 ← (← getObj? s "bw2") |> floatList?
+    let (fw, bw, bw2) := (fw.toArray, bw.toArray, bw2.toArray)
+    some { fw := fun c => fw.getD c 1, bw := fun c => bw.getD c 1, bw2 := fun c => bw2.getD c 1 }
+
+/-- `[individual][column][genotype]`; `col c` yields (selection ↦ numerator, total) of column `c`, computed once per column -/
+def table (inst : Inst) (col : Nat → ((Nat → Nat → Bool) → Float) × Float) : Json :=
+  let cols := (List.range inst.nCols).map col
+  ofList (fun i => ofList (fun (nt : ((Nat → Nat → Bool) → Float) × Float) =>
+      ofList (fun g => fbits (nt.1 (fun t a => genoOf inst.parts i t a == g) / nt.2)) [0, 1, 2])
+    cols) (List.range inst.nInd)
+
+def handle (op : String) (j : Json) : Option Json :=
+  if op == "c08.fb" then
+    match parseInst j, parseParams j, parseScal j with
+    | some inst, some p, some S =>
+      if !inst.WF then some (Json.mkObj [("error", Json.str "not-WF")]) else
+      let F := inst.frame
+      let W := inst.weights p
+      -- likelihoodSel F W S c sel = numerOf W nAct (fbCells F W S c) sel / numerOf … (fun _ _ => true), cells shared
+      some (Json.mkObj [("lik", table inst (fun c =>
+        let cells := fbCells F W S c
+        let nAct := (F.col c).nAct
+        (fun sel => numerOf W nAct cells sel, numerOf W nAct cells (fun _ _ => true))))])
+    | _, _, _ => some badInput
+  else if op == "c08.brute" then
+    match parseInst j, parseParams j with
+    | some inst, some p =>
+      if !inst.WF then some (Json.mkObj [("error", Json.str "not-WF")]) else
+      let F := inst.frame
+      let W := inst.weights p
+      -- posteriorSel F W c sel = specNumer F W c sel / specNumer F W c (fun _ _ => true)
+      some (Json.mkObj [("post", table inst (fun c =>
+        (fun sel => specNumer F W c sel, specNumer F W c (fun _ _ => true))))])
+    | _, _ => some badInput
+  else if op == "c08.call" then
+    match (getObj? j "gl").bind floatList?, (getObj? j "thr").bind ofBits? with
+    | some [l0, l1, l2], some thr =>
+      let g := determineGenotype l0 l1 l2 thr
+      let l := fun i => [l0, l1, l2].getD i 0
+      some (Json.mkObj [("gt", ofOptNat g),
+        ("mass", match g with | some g => fbits (gqMass l g) | none => Json.null)])
+    | _, _ => some badInput
+  else none
 end WhVerif.Driver.C08
